@@ -17,18 +17,40 @@ def rng(a, b, step=1):
 
 DWT1_OPS = {
     "quick": dict(NSet=rng(2, 24), LSet=rng(2, 12, 2), ModeSet=MODES, Shard=0, NShards=1, Emit=True,
-                  GradFix=False, PRMaxN=12, PRMaxL=8),
+                  GradFix=False, PerFix=True, PRMaxN=12, PRMaxL=8),
     "thorough": dict(NSet=rng(2, 48), LSet=rng(2, 20, 2), ModeSet=MODES, Shard=0, NShards=1, Emit=True,
-                     GradFix=False, PRMaxN=20, PRMaxL=12),
+                     GradFix=False, PerFix=True, PRMaxN=20, PRMaxL=12),
 }
 DWT1_OPS_INV = ["AnalysisOK", "AnalysisDevExact", "SynthesisOK", "SynthesisDevExact", "RefPR",
                 "ImplPR", "ABackwardOK", "SBackwardOK", "OrthoOK", "EmitOK"]
 
 DWT1_CALLS = {
     "quick": dict(NSet=rng(2, 24), LSet=rng(2, 12, 2), ModeSet=MODES, JMax=3, Apis={"fwd"},
-                  Shard=0, NShards=1, Emit=True, NoneFix=False, GuardFix=False),
+                  Shard=0, NShards=1, Emit=True, NoneFix=False, GuardFix=False, PerFix=True),
     "thorough": dict(NSet=rng(2, 48), LSet=rng(2, 20, 2), ModeSet=MODES, JMax=4, Apis={"fwd"},
-                     Shard=0, NShards=1, Emit=True, NoneFix=False, GuardFix=False),
+                     Shard=0, NShards=1, Emit=True, NoneFix=False, GuardFix=False, PerFix=True),
+}
+
+
+def code(pairs):
+    return {100 * a + b for a, b in pairs}
+
+
+def sq(a, b):
+    return {(h, w) for h in range(a, b + 1) for w in range(a, b + 1)}
+
+
+def eqpairs(ls):
+    return {(l, l) for l in ls}
+
+
+DWT2_CALLS = {
+    "quick": dict(HWCodes=code(sq(2, 9) | {(h, w) for h in (12, 17, 24) for w in (2, 3, 5)} | {(w, h) for h in (12, 17, 24) for w in (2, 3, 5)}),
+                  LCodes=code(eqpairs([2, 4, 6])), ModeSet=MODES, JMax=2, Apis={"fwd"}, Shard=0, NShards=1,
+                  Emit=True, NoneFix=False, GuardFix=False, SlotFix=False, PerFix=True),
+    "thorough": dict(HWCodes=code(sq(2, 16) | {(h, w) for h in (21, 24, 33) for w in (2, 3, 5, 8)} | {(w, h) for h in (21, 24, 33) for w in (2, 3, 5, 8)}),
+                     LCodes=code(eqpairs([2, 4, 6, 8, 10])), ModeSet=MODES, JMax=3, Apis={"fwd"}, Shard=0, NShards=1,
+                     Emit=True, NoneFix=False, GuardFix=False, SlotFix=False, PerFix=True),
 }
 
 
